@@ -70,7 +70,7 @@ def _unrepaired_model_agrees(lines, answers):
         f = ln.split('\t')
         if len(f) >= 3 and f[1] == 'set_max_nodes':
             (capped.discard if f[2] == 'max' else capped.add)(f[0])
-        if len(f) >= 2 and f[0] in capped and f[1] in ('foa', 'ite', 'var'):
+        if len(f) >= 2 and f[0] in capped and f[1] in ('foa', 'ite', 'var', 'apply'):
             f[1] += '_old'
         out_lines.append('\t'.join(f))
     try:
